@@ -1,8 +1,12 @@
 (** C05  Each valid input record is counted once, in the pixel that contains it.
-    Only statements, each closed by [exact] of a lemma proved in Proofs/IngestProofs.v. *)
-From Cooler Require Import Model.Ingest Proofs.BinsProofs Proofs.ExtentProofs Proofs.IngestProofs.
+    Only statements, each closed by [exact] of a lemma proved in Proofs/IngestProofs.v.
+    A record is (side1, side2), a side is (chromosome code, position, sided payload); code -1 = a name
+    that is not in the bin table.  [to_wrow ob r] carries the chromosome codes and the anchors after the
+    one-based shift.  [InChrom blocks c a]: c is a listed chromosome and 0 <= a < its length. *)
+From Cooler Require Import Model.Ingest Proofs.BinsProofs Proofs.ExtentProofs Proofs.PixelsProofs Proofs.IngestProofs.
+From Coq Require Import Permutation.
 
-(** an anchor inside its chromosome is assigned a bin of that chromosome that contains it
+(** 1. an anchor inside its chromosome is assigned a bin of that chromosome that contains it
     (both paths: division by the reported bin size / searchsorted on the absolute bin starts) *)
 Theorem C05_assign_contains : forall blocks i blk p,
   ValidBlocks blocks -> nth_error blocks i = Some blk -> 0 <= p < chrom_len blk ->
@@ -12,10 +16,179 @@ Theorem C05_assign_contains : forall blocks i blk p,
 Proof. exact assign_contains. Qed.
 Print Assumptions C05_assign_contains.
 
-(** _sanitize_records (five whole-chunk phases) is a per-record map/filter: the chunk fails iff some
+(** 2. _sanitize_records (five whole-chunk phases) is a per-record map/filter: the chunk fails iff some
     record is an error on its own, otherwise the output is the concatenation of the per-record outputs *)
 Theorem C05_sanitize_is_map_filter : forall blocks one_based validate ta chunk,
   sanitize_records blocks one_based validate ta chunk =
   collect (map (sanitize1 blocks one_based validate ta) chunk).
 Proof. exact sanitize_is_map_filter. Qed.
 Print Assumptions C05_sanitize_is_map_filter.
+
+(** 2a. re-chunking does not change the outcome *)
+Theorem C05_chunking_invariant : forall blocks ob val ta c1 c2,
+  sanitize_records blocks ob val ta (c1 ++ c2) =
+  match sanitize_records blocks ob val ta c1, sanitize_records blocks ob val ta c2 with
+  | Some a, Some b => Some (a ++ b)
+  | _, _ => None
+  end.
+Proof. exact sanitize_app. Qed.
+Print Assumptions C05_chunking_invariant.
+
+(** 2b. record order does not change the outcome *)
+Theorem C05_order_invariant : forall blocks ob val ta c c', Permutation c c' ->
+  match sanitize_records blocks ob val ta c, sanitize_records blocks ob val ta c' with
+  | Some a, Some a' => Permutation a a'
+  | None, None => True
+  | _, _ => False
+  end.
+Proof. exact sanitize_perm. Qed.
+Print Assumptions C05_order_invariant.
+
+(** 2c. each retained record contributes exactly once: the counts stored by aggregate_records add up to the
+    number of retained records, and the count of a pixel is the number of records binned to it *)
+Theorem C05_total_equals_retained : forall blocks ob val ta chunk out,
+  sanitize_records blocks ob val ta chunk = Some out ->
+  sumZ (map snd (aggregate_records out)) =
+  zlen (filter (fun r => is_keep (sanitize1 blocks ob val ta r)) chunk).
+Proof. exact total_equals_retained. Qed.
+Print Assumptions C05_total_equals_retained.
+
+Theorem C05_aggregate_records_canon : forall recs,
+  Canon (map (fun o => (okey o, 1)) recs) (aggregate_records recs) /\
+  sumZ (map snd (aggregate_records recs)) = zlen recs.
+Proof. exact aggregate_records_canon. Qed.
+Print Assumptions C05_aggregate_records_canon.
+
+Theorem C05_pixel_count_is_multiplicity : forall recs k,
+  look (aggregate_records recs) k = zlen (filter (fun o => keqb (okey o) k) recs).
+Proof. exact aggregate_records_multiplicity. Qed.
+Print Assumptions C05_pixel_count_is_multiplicity.
+
+(** 3. a retained valid record keeps its two sides (possibly exchanged) and each output bin contains the
+    (shifted) anchor of the side it belongs to — never another bin or chromosome *)
+Theorem C05_kept_contains : forall blocks ob r,
+  ValidBlocks blocks ->
+  InChrom blocks (wc1 (to_wrow ob r)) (wa1 (to_wrow ob r)) ->
+  InChrom blocks (wc2 (to_wrow ob r)) (wa2 (to_wrow ob r)) ->
+  forall ta o, sanitize1 blocks ob true ta r = OKeep o ->
+  ((os1 o, os2 o) = (fst r, snd r) \/ (os1 o, os2 o) = (snd r, fst r)) /\
+  contains_b blocks (sc (os1 o)) (shift1 ob (sp (os1 o))) (ob1 o) = true /\
+  contains_b blocks (sc (os2 o)) (shift1 ob (sp (os2 o))) (ob2 o) = true.
+Proof. exact kept_contains. Qed.
+Print Assumptions C05_kept_contains.
+
+(** 3a. reflect: every valid record is retained; a lower-triangle one has its sides exchanged; the result is
+    upper triangular *)
+Theorem C05_reflect_upper : forall blocks ob r,
+  ValidBlocks blocks ->
+  InChrom blocks (wc1 (to_wrow ob r)) (wa1 (to_wrow ob r)) ->
+  InChrom blocks (wc2 (to_wrow ob r)) (wa2 (to_wrow ob r)) ->
+  exists o, sanitize1 blocks ob true TrilReflect r = OKeep o /\
+    (os1 o, os2 o) = (if is_tril (to_wrow ob r) then (snd r, fst r) else (fst r, snd r)) /\
+    ob1 o <= ob2 o.
+Proof. exact reflect_upper. Qed.
+Print Assumptions C05_reflect_upper.
+
+(** 3b. drop: a valid record is retained, unchanged, iff it is not in the lower triangle *)
+Theorem C05_drop_lower : forall blocks ob r,
+  InChrom blocks (wc1 (to_wrow ob r)) (wa1 (to_wrow ob r)) ->
+  InChrom blocks (wc2 (to_wrow ob r)) (wa2 (to_wrow ob r)) ->
+  sanitize1 blocks ob true TrilDrop r =
+  if is_tril (to_wrow ob r) then ODrop
+  else OKeep (assign blocks (wc1 (to_wrow ob r)) (wa1 (to_wrow ob r)),
+              assign blocks (wc2 (to_wrow ob r)) (wa2 (to_wrow ob r)), fst r, snd r).
+Proof. exact drop_lower. Qed.
+Print Assumptions C05_drop_lower.
+
+(** 3c. no triangle action: every valid record is retained unchanged *)
+Theorem C05_none_keeps_all : forall blocks ob r,
+  InChrom blocks (wc1 (to_wrow ob r)) (wa1 (to_wrow ob r)) ->
+  InChrom blocks (wc2 (to_wrow ob r)) (wa2 (to_wrow ob r)) ->
+  sanitize1 blocks ob true TrilNone r =
+  OKeep (assign blocks (wc1 (to_wrow ob r)) (wa1 (to_wrow ob r)),
+         assign blocks (wc2 (to_wrow ob r)) (wa2 (to_wrow ob r)), fst r, snd r).
+Proof. exact none_keeps_all. Qed.
+Print Assumptions C05_none_keeps_all.
+
+(** 4. one-based input is zero-based input shifted by exactly one: same verdict, same pixel *)
+Theorem C05_one_based_shift : forall blocks val ta r,
+  outcome_bins (sanitize1 blocks true val ta r) = outcome_bins (sanitize1 blocks false val ta (dec_rec r)).
+Proof. exact one_based_shift. Qed.
+Print Assumptions C05_one_based_shift.
+
+(** 5. records on unlisted chromosomes are dropped; a record on listed chromosomes with a (shifted) position
+    < 0 or > L makes its chunk fail; a retained record has 0 <= position <= L *)
+Theorem C05_unknown_dropped : forall blocks ob val ta r,
+  known r = false -> sanitize1 blocks ob val ta r = ODrop.
+Proof. exact unknown_dropped. Qed.
+Print Assumptions C05_unknown_dropped.
+
+Theorem C05_reject_out_of_range : forall blocks ob ta chunk r,
+  In r chunk -> known r = true ->
+  let w := to_wrow ob r in
+  (wa1 w < 0 \/ wa2 w < 0 \/ chromsize_of blocks (wc1 w) < wa1 w \/ chromsize_of blocks (wc2 w) < wa2 w) ->
+  sanitize_records blocks ob true ta chunk = None.
+Proof. exact reject_chunk. Qed.
+Print Assumptions C05_reject_out_of_range.
+
+Theorem C05_accepted_in_range : forall blocks ob ta r o,
+  sanitize1 blocks ob true ta r = OKeep o ->
+  known r = true /\
+  let w := to_wrow ob r in
+  0 <= wa1 w <= chromsize_of blocks (wc1 w) /\ 0 <= wa2 w <= chromsize_of blocks (wc2 w).
+Proof. exact accepted_in_range. Qed.
+Print Assumptions C05_accepted_in_range.
+
+(** 5'. the full statement of the property ("position >= L is rejected") is FALSE of the code — known finding D2:
+    a zero-based position equal to the chromosome length is accepted and binned into the next chromosome's
+    first bin, or gets the out-of-range bin id nbins on the last chromosome.  C05_kept_contains therefore
+    carries the hypothesis position < L. *)
+Theorem C05_reject_refuted :
+  let blocks := [[(0,0,10);(0,10,20)]; [(1,0,10)]] in
+  let r : record := ((0, 20, 7), (0, 3, 8)) in
+  valid_blocks_b blocks = true /\ known r = true /\ sp (fst r) = chromsize_of blocks (sc (fst r)) /\
+  sanitize1 blocks false true TrilReflect r = OKeep (0, 2, (0, 3, 8), (0, 20, 7)) /\
+  nth_error (table blocks) 2 = Some (1, 0, 10) /\
+  sanitize1 [[(0,0,10);(0,10,20)]] false true TrilReflect r = OKeep (0, 2, (0, 3, 8), (0, 20, 7)) /\
+  zlen (table [[(0,0,10);(0,10,20)]]) = 2.
+Proof. exact reject_refuted. Qed.
+Print Assumptions C05_reject_refuted.
+
+(** 6. pre-binned records (_sanitize_pixels): per-record map/filter; both bin columns are shifted *)
+Theorem C05_sanitize_pixels_is_map_filter : forall ob ta chunk,
+  sanitize_pixels ob ta chunk = all_some (map (sanitize_px1 ob ta) chunk).
+Proof. exact sanitize_pixels_is_map_filter. Qed.
+Print Assumptions C05_sanitize_pixels_is_map_filter.
+
+Theorem C05_sanitize_pixels_reflect : forall ob r,
+  sanitize_px1 ob TrilReflect r =
+  Some [ if shift1 ob (pb2 r) <? shift1 ob (pb1 r)
+         then (shift1 ob (pb2 r), shift1 ob (pb1 r), px2 r, px1 r, pval r)
+         else (shift1 ob (pb1 r), shift1 ob (pb2 r), px1 r, px2 r, pval r) ].
+Proof. exact sanitize_px1_spec. Qed.
+Print Assumptions C05_sanitize_pixels_reflect.
+
+(** non-vacuity: a variable-width table with a longer last bin, records on bin edges, a lower-triangle
+    record, an unknown chromosome, one-based input *)
+Example ex_C05_variable :
+  let blocks := [[(0,0,10);(0,10,20)]; [(1,0,10);(1,10,22);(1,22,25)]; [(2,0,7)]] in
+  valid_blocks_b blocks = true /\ get_binsize (table blocks) = None /\
+  sanitize_records blocks true true TrilReflect
+    [((1,23,1),(0,20,2)); ((-1,5,3),(0,1,4)); ((1,10,5),(1,11,6)); ((2,7,7),(1,25,8))] =
+  Some [(1, 4, (0,20,2), (1,23,1)); (2, 3, (1,10,5), (1,11,6)); (4, 5, (1,25,8), (2,7,7))] /\
+  aggregate_records [(1, 3, (0,20,2), (1,23,1)); (1, 3, (0,19,0), (1,22,0))] = [((1,3),2)].
+Proof. vm_compute. repeat split; reflexivity. Qed.
+Example ex_C05_inchrom :
+  let blocks := [[(0,0,10);(0,10,20)]; [(1,0,10);(1,10,22);(1,22,25)]] in
+  ValidBlocks blocks /\ InChrom blocks 1 24 /\ contains_b blocks 1 24 (assign blocks 1 24) = true /\ assign blocks 1 24 = 4.
+Proof.
+  split; [apply valid_blocks_b_sound; reflexivity|].
+  split; [exists 1%nat, [(1,0,10);(1,10,22);(1,22,25)]; repeat split; vm_compute; congruence|].
+  split; reflexivity.
+Qed.
+Example ex_C05_rejects :
+  let blocks := [[(0,0,10);(0,10,20)]; [(1,0,7)]] in
+  sanitize_records blocks false true TrilReflect [((0,3,0),(1,2,0)); ((1,8,0),(0,0,0))] = None /\
+  sanitize_records blocks false true TrilReflect [((0,3,0),(1,2,0)); ((1,-1,0),(0,0,0))] = None /\
+  sanitize_records blocks false true TrilRaise [((1,3,0),(0,2,0))] = None.
+Proof. vm_compute. repeat split; reflexivity. Qed.
